@@ -60,6 +60,8 @@ pub fn div(numerator: &mut [u64], divisor: &mut [u64]) {
         &mut numerator[..=i]
     } else {
         // Empty numerator (q, r) = (0,0)
+        #[cfg(recmo_uint_verif)]
+        crate::verif_hooks::hit(crate::verif_hooks::Hook::div_numerator_zero);
         divisor.fill(0);
         return;
     };
@@ -68,6 +70,8 @@ pub fn div(numerator: &mut [u64], divisor: &mut [u64]) {
 
     // If numerator is smaller than divisor (q, r) = (0, numerator)
     if numerator.len() < divisor.len() {
+        #[cfg(recmo_uint_verif)]
+        crate::verif_hooks::hit(crate::verif_hooks::Hook::div_numerator_shorter);
         let (remainder, padding) = divisor.split_at_mut(numerator.len());
         remainder.copy_from_slice(numerator);
         padding.fill(0);
@@ -80,20 +84,28 @@ pub fn div(numerator: &mut [u64], divisor: &mut [u64]) {
     if divisor.len() <= 2 {
         if divisor.len() == 1 {
             if numerator.len() == 1 {
+                #[cfg(recmo_uint_verif)]
+                crate::verif_hooks::hit(crate::verif_hooks::Hook::div_dispatch_1x1);
                 let q = numerator[0] / divisor[0];
                 let r = numerator[0] % divisor[0];
                 numerator[0] = q;
                 divisor[0] = r;
             } else {
+                #[cfg(recmo_uint_verif)]
+                crate::verif_hooks::hit(crate::verif_hooks::Hook::div_dispatch_nx1);
                 divisor[0] = div_nx1(numerator, divisor[0]);
             }
         } else {
+            #[cfg(recmo_uint_verif)]
+            crate::verif_hooks::hit(crate::verif_hooks::Hook::div_dispatch_nx2);
             let d = u128::join(divisor[1], divisor[0]);
             let remainder = div_nx2(numerator, d);
             divisor[0] = remainder.low();
             divisor[1] = remainder.high();
         }
     } else {
+        #[cfg(recmo_uint_verif)]
+        crate::verif_hooks::hit(crate::verif_hooks::Hook::div_dispatch_nxm);
         div_nxm(numerator, divisor);
     }
 }
